@@ -125,6 +125,7 @@ def run(facts, report, config):
     run_zip(facts, report, config, eng)
     run_hash(facts, report, config, eng)
     run_debug_width(facts, report, config, eng)
+    run_onesided(facts, report, config, eng)
     for b in facts.fn_bodies():
         if b["kind"] == "Closure" or b.get("name") not in SELECT_NAMES:
             continue
@@ -452,6 +453,80 @@ def _length_strict(eng, bid, depth=0, seen=None):
                     if _length_strict(eng, cid, depth + 1, seen):
                         return True
     return False
+
+
+
+ELEMENT_ACCESS = {"get", "get_unchecked", "index", "deref", "as_ref", "as_limbs", "as_words", "borrow"}
+
+
+def run_onesided(facts, report, config, eng, prefix="c06.onesided"):
+    """A predicate over two heap-allocated operands whose every loop is bounded by the length of ONE operand, while the
+    other operand is only ever touched element by element (`get(i)`, indexing), never traversed, measured or handed to
+    another routine, cannot see the limbs of the second operand beyond the first one's length: two values that differ
+    only there compare as if equal / ordered by the shared prefix.  (The crate's own idiom bounds such loops by
+    `max(a.len(), b.len())` or delegates to `sbb`, both of which involve the second operand's length.)"""
+    for b in facts.fn_bodies():
+        if b["kind"] == "Closure" or (b.get("sig_out") or "") not in PRED_RET or b.get("vis") == "restricted":
+            continue
+        view = eng.view(b["id"])
+        dyn = [i for i in range(1, view.argc + 1) if _is_dyn(view.locals[i])]
+        if len(dyn) != 2 or any(view.locals[i].startswith("&mut") for i in dyn):
+            continue
+        summ, evs = eng.analyze(b["id"], collect=True)
+        # loop-exit branches: a switch inside a cycle with a successor that leaves the cycle
+        lens = set()
+        loops = 0
+        guard = False
+        for e in evs:
+            if e.kind != "branch" or e.via:
+                continue
+            bi = e.bb[0]
+            ls = {int(l[1:].split("#")[0]) for l in e.labels if l.startswith("@") and l.endswith("#len")}
+            if view.abort_guard(bi):
+                if len(ls & set(dyn)) == 2:
+                    guard = True
+                continue
+            t = view.blocks[bi]["term"]
+            if t["k"] != "switch":
+                continue
+            succs = set(x for x in t["t"] if x is not None)
+            in_cycle = any(view.can_reach(sx, bi) for sx in succs)
+            leaves = any(not view.can_reach(sx, bi) for sx in succs)
+            if in_cycle and leaves:
+                loops += 1
+                lens |= ls & set(dyn)
+        key = "%s|%s" % (prefix, norm_id(b["id"]))
+        if not loops or len(lens) != 1 or guard:
+            continue
+        pa = next(iter(lens))
+        pb = [i for i in dyn if i != pa][0]
+        # how is the other operand touched?
+        prov = IterProv(view)
+        only_elements = True
+        touched = False
+        for bi, t in view.calls():
+            if view.blocks[bi]["cleanup"]:
+                continue
+            seg = mir.last_seg(mir.callee_decl(t)) or ""
+            for a in t["args"]:
+                if a[0] == "k":
+                    continue
+                if not mir.is_ptr_ty(view.locals[a[1][0]]) and not _is_dyn(view.locals[a[1][0]]):
+                    continue
+                if pb in {r.what for r in prov.roots_of_operand(a) if r.kind == "param"}:
+                    touched = True
+                    if seg not in ELEMENT_ACCESS:
+                        only_elements = False
+        report.count("one_sided_loop_predicates")
+        if touched and only_elements:
+            report.add(Instance(key, prefix, "violation",
+                                "every loop of predicate `%s` is bounded by the length of operand _%d alone, and operand _%d is "
+                                "only read element by element: its limbs beyond the other operand's length are never looked at, "
+                                "so operands of different precision that differ only there are mis-compared" % (
+                                    b.get("name"), pa, pb), b["span"], {"body": b["id"]}), config)
+        else:
+            report.add(Instance(key, prefix, "ok", "auto: the other operand is traversed / measured / delegated as a whole",
+                                b["span"], {"body": b["id"]}), config)
 
 
 def run_hash(facts, report, config, eng):
